@@ -169,6 +169,9 @@ func init() {
 					dt := x.Now() - t0
 					x.Obs("%s err=%v", name, err != nil)
 					x.Put("ret:"+name, dt)
+					if err == nil {
+						x.Put("ok:"+name, true)
+					}
 					if err != nil && strings.HasPrefix(err.Error(), "MISROUTE") {
 						x.Fail("S", "%s: %v", name, err)
 					}
@@ -196,6 +199,11 @@ func init() {
 			}
 			// let the history play out, then the fresh matched pair
 			x.Pause(12 * time.Second)
+			// two fresh ids at once: an accept nobody dials (it must time out, with nothing delivered to it) ...
+			if ops.kind == "mux" {
+				issue("fresh:Ap91", "Ap91", false)
+			}
+			// ... and the matched pair
 			issue("fresh:Ap90", "Ap90", true)
 			issue("fresh:Dh90", "Dh90", true)
 		},
@@ -213,6 +221,9 @@ func init() {
 					x.Fail("L", "call %s never returned", n)
 				} else if dt, ok := x.Data["ret:"+n].(time.Duration); ok && x.TimeDevs == 0 && dt > ops.bound {
 					x.Fail("T", "call %s returned after %v (bound %v)", n, dt, ops.bound)
+				}
+				if n == "fresh:Ap91" && x.Data["ok:"+n] == true {
+					x.Fail("S", "Accept(91), which nobody dialled, returned a connection")
 				}
 				if e, ok := x.Data["musterr:"+n]; ok && x.TimeDevs == 0 {
 					x.Fail("L", "matched pair on a fresh id failed after the history: %s: %v", n, e)
